@@ -210,7 +210,7 @@ def run(chk, replay=None):
 LANCZOS_STEPS = os.environ.get("VERIF_NO_LSTEPS", "") not in ("1", "true", "yes")
 
 L_QUICK = ["MC_Lanczos_q_3x3_w2.cfg", "MC_Lanczos_q_5x6_w2.cfg", "MC_Lanczos_q_6x6_w3.cfg"]
-L_THOROUGH = ["MC_Lanczos_t_3x4_w2.cfg", "MC_Lanczos_t_4x6_w2.cfg", "MC_Lanczos_t_4x6_w3.cfg", "MC_Lanczos_t_6x7_w2.cfg",
+L_THOROUGH = ["MC_Lanczos_t_3x4_w2.cfg", "MC_Lanczos_t_4x3_w2.cfg", "MC_Lanczos_t_4x6_w2.cfg", "MC_Lanczos_t_4x6_w3.cfg", "MC_Lanczos_t_6x7_w2.cfg",
               "MC_Lanczos_t_7x7_w3.cfg"]
 # broken variants of the model (non-vacuity): TLC must report exactly this invariant
 L_BROKEN = [("MC_Lanczos_nv_nofilter.cfg", "ResultOK"), ("MC_Lanczos_nv_finalq.cfg", "ResultOK"),
@@ -378,8 +378,9 @@ def _lanczos_steps(chk, w, thorough, replay, models=True):
         def one(job):
             cfg, inv, seed = job
             big = cfg in L_THOROUGH
-            return job, core.model_check("gf2/Lanczos.tla", cfg, workers=(4 if big else 1), timeout=(3000 if big else 600),
+            return job, core.model_check("gf2/Lanczos.tla", cfg, workers=1, timeout=(6000 if big else 900),
                                          extra=["-seed", seed], expect_error=inv is not None)
+        jobs.sort(key=lambda j: j[0] not in L_THOROUGH)          # the long ones first
         with cf.ThreadPoolExecutor(max_workers=max(1, min(core.NCPU, 8))) as ex:
             results = list(ex.map(one, jobs))
         for (cfg, inv, _), r in results:
@@ -412,6 +413,11 @@ def _lanczos_steps(chk, w, thorough, replay, models=True):
     res = core.validate_trace("gf2/Gf2Trace.tla", "Gf2Trace.cfg", lres, timeout=3000, weight=_weight, tag="lanczos-steps-results")
     chk.add_tv(res)
     # the steps (Drift)
+    if not core.read_ndjson(steps):
+        # no call reached its first block (calls that hang before it are timeouts in the result trace above)
+        chk.notes.append("lanczos-steps: the hooked calls recorded no step event (%d result events)" % len(core.read_ndjson(lres)))
+        chk.cov["lanczos_steps"] = {"ops": {}, "runs": drv.get("runs", 0)}
+        return
     sres = core.validate_trace("gf2/LanczosTrace.tla", "LanczosTrace.cfg", steps, group_key="case", timeout=3000,
                                weight=_lz_weight, tag="lanczos-steps")
     chk.add_tv(sres)
